@@ -40,10 +40,10 @@ def run(ctx):
             dict(cfg="FrameRFC", kw=dict(workers=2), note="readers accept every RFC-valid padding"),
             dict(cfg="MaxPktFit", kw=dict(workers=2), note="scaled maxPacket: round trip whenever packet_length fits"),
             dict(cfg="MaxPkt", expect="RoundTrip", kw=dict(workers=1), note="design-level: payloads near maxPacket do not round-trip"),
-            dict(cfg="FrameCBCEtM", expect="FramingRFC", kw=dict(workers=1), note="design-level: cbcCipher has no EtM framing"),
+            dict(cfg="FrameCBCEtM", kw=dict(workers=1), note="CBC x -etm MAC: -etm layout (length in clear, aligned without it), n in 1..300"),
         ]
-        ctx.notes.append("design-level counterexamples kept as expected-violation runs: RoundTrip for payloads whose packet_length exceeds maxPacket "
-                         "(SSHPacket_MaxPkt.cfg), FramingRFC for CBC x -etm MAC (SSHPacket_FrameCBCEtM.cfg); both are reproduced on the real code")
+        ctx.notes.append("design-level counterexample kept as an expected-violation run: RoundTrip for payloads whose packet_length exceeds maxPacket "
+                         "(SSHPacket_MaxPkt.cfg); it is reproduced on the real code (known finding C25-F3)")
     else:
         ctx.skipped.append("quick tier: SSHPacket_FrameRFC / MaxPktFit / MaxPkt / FrameCBCEtM instances run in the thorough tier only")
     res = cc.par_tlc(ctx, jobs)
